@@ -2,6 +2,8 @@
 //! usage: selium-verif-harness <suite> [--seed N] [--tier quick|thorough] [--out DIR] [--replay FILE]
 mod util;
 mod backoff;
+mod childrun;
+mod wire;
 
 use util::{Cfg, Tier};
 
@@ -12,6 +14,10 @@ fn main() {
         std::process::exit(2);
     }
     let suite = args[1].clone();
+    if suite == "__child" {
+        childrun::child_main();
+        return;
+    }
     let mut cfg = Cfg {
         seed: std::env::var("VERIF_SEED").ok().and_then(|s| s.parse().ok()).unwrap_or(0),
         tier: match std::env::var("VERIF_TIER").as_deref() {
@@ -34,6 +40,15 @@ fn main() {
     util::quiet_panics();
     match suite.as_str() {
         "backoff" => backoff::run(&cfg),
+        "wire" => wire::run(&cfg),
         other => { eprintln!("unknown suite {other}"); std::process::exit(2); }
+    }
+}
+
+/// operations executed inside the guarded child process
+pub fn dispatch_child(op: &str, input: &[u8]) -> String {
+    match op {
+        "bdec" => wire::bdec_value(input),
+        other => format!("unknown-op {other}"),
     }
 }
